@@ -535,6 +535,17 @@ async def process_changing_cause(
             state.purge(body=cause.body, patch=cause.patch,
                         storage=storage, handlers=owned_handlers)
 
+    # Nothing has changed since the last handled state, and nothing is to be resumed. If the object
+    # still carries the progress records of some handlers, then the change they were handling has
+    # been reverted in the meantime (the handlers were retrying or sleeping): no cycle will ever
+    # finish them or clean them up, and they would leak their retries/timings into the next change.
+    # Only the records present on the object are patched away: nothing to purge -- nothing to patch.
+    if cause.reason == causes.Reason.NOOP:
+        storage = settings.persistence.progress_storage
+        owned_handlers = registry._changing.get_resource_handlers(resource=cause.resource)
+        state = progression.State.from_storage(body=cause.body, storage=storage, handlers=owned_handlers)
+        state.purge(body=cause.body, patch=cause.patch, storage=storage, handlers=owned_handlers)
+
     # Regular causes also do some implicit post-handling when all handlers are done.
     if done or skip:
         if cause.new is not None and cause.old != cause.new:
